@@ -1,6 +1,6 @@
 SPECIFICATION TraceSpec
 CONSTANTS
-  NK = 200
+  NK = 253
   NV = 7
   BDepth = 100000
   Obs <- ObsTrace
